@@ -204,6 +204,20 @@ func Upgrade8To10(old, new string, logger *log.Logger) (retErr error) {
 		if err != nil {
 			return fmt.Errorf("reading upgrade plan: %w", err)
 		}
+		if fsutil.DirExists(new) {
+			// The interrupted plan got as far as renaming the new directory into
+			// place. Running it again from the start would re-create the temporary
+			// directory and then fail to rename it over the existing one (and, once
+			// the old directory is gone, fail to copy from it). All that can remain
+			// is removing the old directory.
+			if err := os.RemoveAll(old); err != nil {
+				return fmt.Errorf("failed to remove old snapshot directory %s: %s", old, err)
+			}
+			os.Remove(planPath)
+			logger.Printf("resumed and completed upgrade of v8 snapshot directory to %s", new)
+			stats.Add(upgradeOk, 1)
+			return nil
+		}
 		if err := p.Execute(plan.NewExecutor()); err != nil {
 			return fmt.Errorf("executing resumed upgrade plan: %w", err)
 		}
